@@ -101,8 +101,8 @@ def validate(proto, resp):
         if len(set(names)) != len(names):
             raise Malformed("duplicate header")
         kind = "success" if code == 200 else "error"
-        if proto == "wap" and b"Not Found" in resp.split(b"\r\n", 1)[0]:
-            kind = "error"
+        if b"Not Found" in resp.split(b"\r\n", 1)[0]:
+            kind = "error"      # WAP's not-found deck is sent with "200 Not Found"
         return {"kind": kind, "status": code, "body": body, "headers": headers}
     if proto == "gemini":
         code, meta, body = split_gemini(resp, 2)
